@@ -110,8 +110,9 @@ def run(prog: Program, res: Result, tier: str) -> None:
             "zip(self.atom_types, self.coords)" in ast.unparse(w.node):
         res.ok("X-FORMAT", inst, w.loc())
     else:
-        res.bad("X-FORMAT", "atom line layout", w.loc(), f"{inst}: not found",
-                instance=inst)
+        res.unrecognised("X-FORMAT", inst, w.loc(),
+                         "per-atom line with SYMBOLS[atom_type] over "
+                         "zip(self.atom_types, self.coords) not found")
     # the text reaches the parser as ONE stream: str.splitlines() also splits
     # at \x0b \x0c \x1c-\x1e \x85 \u2028 \u2029, which may occur in a comment
     fx = geo.methods.get("from_xyz")
@@ -155,16 +156,27 @@ def run(prog: Program, res: Result, tier: str) -> None:
     inst = f"symbol field width U{m.group(1) if m else '?'} >= {longest}"
     if m and int(m.group(1)) >= longest:
         res.ok("X-FORMAT", inst, r.loc())
+    elif m:
+        res.bad("X-FORMAT", "symbol width", r.loc(), f"{inst}: too narrow, "
+                "two-letter symbols are truncated", instance=inst)
     else:
-        res.bad("X-FORMAT", "symbol width", r.loc(), f"{inst}: too narrow",
-                instance=inst)
+        res.unrecognised("X-FORMAT", inst, r.loc(), "dtype of the symbol "
+                         "column not found")
     inst = "elements restored through PERIODIC_TABLE, columns x, y, z in order"
+    cs = [n for n in ast.walk(r.node) if isinstance(n, ast.Call)
+          and call_name(n) in ("np.column_stack", "np.stack", "np.array",
+                               "np.vstack", "np.transpose")
+          and "data[" in norm(n)]
+    cols = re.findall(r"data\['([xyz])'\]", norm(cs[0], 300)) if cs else []
     if "PERIODIC_TABLE[atom] for atom in data['atom']" in rt and \
-            "np.column_stack((data['x'], data['y'], data['z']))" in rt:
+            cols == ["x", "y", "z"]:
         res.ok("X-FORMAT", inst, r.loc())
+    elif cols and cols != ["x", "y", "z"]:
+        res.bad("X-FORMAT", f"reader columns {cols}", r.loc(cs[0]),
+                f"{inst}: coordinates are assembled as {cols}", instance=inst)
     else:
-        res.bad("X-FORMAT", "reader columns", r.loc(), f"{inst}: not found",
-                instance=inst)
+        res.unrecognised("X-FORMAT", inst, r.loc(), "column assembly / "
+                         "element lookup not recognised")
     # ---- connectivity -----------------------------------------------------
     fb = prog.resolve_method("MolGraph", "from_atom_types_and_bond_order_matrix")
     t = ast.unparse(fb.node)
@@ -179,27 +191,44 @@ def run(prog: Program, res: Result, tier: str) -> None:
         ok = k == "1"
     if ok and "for x_id, y_id in zip(x_ids, y_ids)" in t:
         res.ok("X-CONN", inst, fb.loc())
+    elif tri:
+        res.bad("X-CONN", f"upper triangle k={k}", fb.loc(tri[0]),
+                f"{inst}: np.triu_indices is called with k={k} (k=0 creates "
+                "self-bonds)", instance=inst)
     else:
-        res.bad("X-CONN", "upper triangle", fb.loc(),
-                f"{inst}: np.triu_indices(..., k=1) not found (k=0 creates "
-                "self-bonds, a full scan bonds each pair twice)",
-                instance=inst)
+        res.unrecognised("X-CONN", inst, fb.loc(), "no np.triu_indices call: "
+                         "pair enumeration not recognised")
     inst = "atoms are created as 0..n-1 from enumerate(atom_types)"
     if "for i, atom_type in enumerate(atom_types)" in t and \
             "add_atom(i, atom_type=atom_type)" in t:
         res.ok("X-CONN", inst, fb.loc())
     else:
-        res.bad("X-CONN", "atom creation", fb.loc(), f"{inst}: not found",
-                instance=inst)
+        res.unrecognised("X-CONN", inst, fb.loc(), "enumerate(atom_types) / "
+                         "add_atom(i, ...) not found")
     dfd = prog.cls("_DefaultFuncDict").methods.get("array")
     at = ast.unparse(dfd.node)
     inst = "_DefaultFuncDict.array stores every cut-off symmetrically"
-    if "array[atom1][atom2] = value" in at and "array[atom2][atom1] = value" in at \
-            and "combinations(enumerate(atom_types), 2)" in at:
+    stores = [(norm(n.targets[0].value.slice), norm(n.targets[0].slice))
+              for n in ast.walk(dfd.node) if isinstance(n, ast.Assign)
+              and isinstance(n.targets[0], ast.Subscript)
+              and isinstance(n.targets[0].value, ast.Subscript)]
+    stores += [tuple(norm(e) for e in n.targets[0].slice.elts)
+               for n in ast.walk(dfd.node) if isinstance(n, ast.Assign)
+               and isinstance(n.targets[0], ast.Subscript)
+               and isinstance(n.targets[0].slice, ast.Tuple)
+               and len(n.targets[0].slice.elts) == 2]
+    sym = all((b, a) in stores for a, b in stores) and bool(stores)
+    if sym and "combinations(" in at:
         res.ok("X-CONN", inst, dfd.loc())
+    elif stores and not sym:
+        res.bad("X-CONN", f"cut-off symmetry {stores}", dfd.loc(),
+                f"{inst}: only {stores} is stored; the cut-off matrix is "
+                "asymmetric and so is the connectivity", instance=inst)
+    elif "np.maximum(" in at or ".T" in at:
+        res.ok("X-CONN", inst, dfd.loc(), "symmetrised")
     else:
-        res.bad("X-CONN", "cut-off symmetry", dfd.loc(), f"{inst}: not found",
-                instance=inst)
+        res.unrecognised("X-CONN", inst, dfd.loc(), "fill of the cut-off "
+                         "array not recognised")
     bfd = prog.cls("BondsFromDistance")
     arr = bfd.methods.get("array")
     cmp_ = [n for n in ast.walk(arr.node) if isinstance(n, ast.Compare)
@@ -217,25 +246,45 @@ def run(prog: Program, res: Result, tier: str) -> None:
           and call_name(n) == "np.where"]
     if wh and [norm(a) for a in wh[0].args[1:]] == ["1", "0"]:
         res.ok("X-CONN", inst, arr.loc())
+    elif wh:
+        res.bad("X-CONN", "where polarity", arr.loc(wh[0]),
+                f"{inst}: np.where is called with "
+                f"{[norm(a) for a in wh[0].args[1:]]}", instance=inst)
     else:
-        res.bad("X-CONN", "where polarity", arr.loc(), f"{inst}: not found",
-                instance=inst)
+        res.unrecognised("X-CONN", inst, arr.loc(), "no np.where")
     call = bfd.methods.get("__call__")
     ct = ast.unparse(call.node)
     inst = "BondsFromDistance.__call__: distance < cut-off (strict)"
-    if "1 if distance < self.connectivity_cutoff[elements] else 0" in ct:
+    dc_ = [n for n in ast.walk(call.node) if isinstance(n, ast.Compare)
+           and norm(n.left) == "distance" and "connectivity_cutoff" in norm(n)]
+    if dc_ and isinstance(dc_[0].ops[0], ast.Lt):
         res.ok("X-CONN", inst, call.loc())
+    elif dc_:
+        res.bad("X-CONN", "__call__ comparison", call.loc(dc_[0]),
+                f"{inst}: found `{norm(dc_[0])}`", instance=inst)
     else:
-        res.bad("X-CONN", "__call__ comparison", call.loc(),
-                f"{inst}: not found", instance=inst)
+        res.unrecognised("X-CONN", inst, call.loc(), "comparison of the "
+                         "distance with the cut-off not found")
     dc = prog.fn("coords:default_connectivity_cutoff")
     dt = ast.unparse(dc.node)
     inst = "default cut-off = sum of covalent radii * 1.2"
-    if re.search(r"return sum\(\(?COVALENT_RADII\[a\] for a in atom_types\)?\) \* 1\.2", dt):
+    mults = [n for n in ast.walk(dc.node) if isinstance(n, ast.BinOp)
+             and isinstance(n.op, ast.Mult)
+             and any(isinstance(x, ast.Constant) for x in (n.left, n.right))]
+    factor = None
+    if mults:
+        c = mults[0].left if isinstance(mults[0].left, ast.Constant) else \
+            mults[0].right
+        factor = c.value
+    radii_sum = "sum(" in dt and "COVALENT_RADII[" in dt
+    if factor == 1.2 and radii_sum:
         res.ok("X-CONN", inst, dc.loc())
+    elif factor is not None and radii_sum:
+        res.bad("X-CONN", f"default cut-off factor {factor}", dc.loc(),
+                f"{inst}: the factor is {factor}", instance=inst)
     else:
-        res.bad("X-CONN", "default cut-off", dc.loc(), f"{inst}: found `"
-                f"{norm(dc.node.body[-1])}`", instance=inst)
+        res.unrecognised("X-CONN", inst, dc.loc(),
+                         f"`{norm(dc.node.body[-1])}` not recognised")
     radii = const(prog.module_assign("periodic_table", "_COVALENT_RADII"))
     inst = f"_COVALENT_RADII covers the {len(symbols)} elements of SYMBOLS"
     if set(radii) == set(symbols) and len(symbols) == 118 and all(
@@ -252,27 +301,25 @@ def run(prog: Program, res: Result, tier: str) -> None:
     if "self.get((key[1], key[0]), None)" in mt and "self.default_func(key)" in mt:
         res.ok("X-CONN", inst, ms.loc())
     else:
-        res.bad("X-CONN", "__missing__", ms.loc(), f"{inst}: not found",
-                instance=inst)
+        res.unrecognised("X-CONN", inst, ms.loc(), "swapped-pair lookup / "
+                         "default function call not found")
     # ---- distances ------------------------------------------------------------
+    from ..geo import K as GK, N as GN, Geo
     pd = prog.fn("coords:pairwise_distances")
-    pt = ast.unparse(pd.node)
     c = pd.params()[0]
-    inst = "pairwise_distances = sqrt(sum((ci - cj)^2, axis=-1))"
-    good = (f"{c}[..., :, None, :] - {c}[..., None, :, :]" in pt
-            and "np.square(diff, out=diff)" in pt
-            and "np.sum(diff, axis=-1)" in pt
-            and "np.sqrt(summed, out=summed)" in pt)
-    uses = [n for n in ast.walk(pd.node) if isinstance(n, ast.Name)
-            and n.id == c and isinstance(n.ctx, ast.Load)]
-    raw = [u for u in uses if not isinstance(getattr(u, "_parent", None),
-                                             (ast.Subscript, ast.Attribute))]
-    if good and not raw:
+    g = Geo(prog, pd, {c: GK("P", 1)}, {}).run()
+    inst = "pairwise_distances is a scalar function of coordinate differences"
+    rk = {k.k for _, k in g.returns}
+    if g.taints:
+        n0, why = g.taints[0]
+        res.bad("X-DIST", f"pairwise_distances: {norm(n0, 80)}", pd.loc(n0),
+                f"{inst}: `{norm(n0, 80)}` uses the coordinates other than "
+                f"through differences of rows ({why}): the distances (and "
+                "the bonds near the cut-off) change under translation",
+                instance=inst)
+    elif rk == {"S"}:
         res.ok("X-DIST", inst, pd.loc())
     else:
-        res.bad("X-DIST", "pairwise_distances shape", pd.loc(),
-                f"{inst}: pattern not found or raw coordinates used "
-                f"({[norm(getattr(u, '_parent', u)) for u in raw][:2]})",
-                instance=inst)
+        res.unrecognised("X-DIST", inst, pd.loc(), f"result kind {sorted(rk)}")
     res.trusted += ["numpy semantics of loadtxt / triu_indices / where",
                     "string literals of the writer contain the newlines"]
